@@ -10,6 +10,7 @@ import (
 	"encoding/json"
 	"errors"
 	"fmt"
+	"github.com/tetratelabs/wazero/internal/wasm"
 	"os"
 	"runtime"
 	"runtime/debug"
@@ -38,6 +39,8 @@ type side struct {
 	cache wazero.CompilationCache
 	inst  [maxMods]api.Module
 	cm    [maxMods]wazero.CompiledModule
+	ids   [maxMods]wasm.ModuleID // identity of instance i for the heap walk (survives drop; names may be empty)
+	hasID [maxMods]bool
 }
 
 const maxMods = 4
@@ -156,12 +159,19 @@ func (s *side) apply(op string, twin bool) (out string) {
 		if err != nil {
 			return "ierr"
 		}
-		m, err := s.rt.InstantiateModule(ctx, cm, wazero.NewModuleConfig().WithName(modName(i)))
+		name := modName(i)
+		if len(f) > 4 && f[4] == "anon" {
+			name = "" // reachable only through the store's module list once the host drops it
+		}
+		m, err := s.rt.InstantiateModule(ctx, cm, wazero.NewModuleConfig().WithName(name))
 		if err != nil {
 			cm.Close(ctx)
 			return "ierr"
 		}
 		s.inst[i], s.cm[i] = m, cm
+		if mi, ok := m.(*wasm.ModuleInstance); ok && mi.Source != nil {
+			s.ids[i], s.hasID[i] = mi.Source.ID, true
+		}
 		return "ok"
 	case "pass":
 		src, how, dst, where := atoi(f[1]), f[2], atoi(f[3]), f[4]
@@ -243,6 +253,18 @@ func (s *side) apply(op string, twin bool) (out string) {
 		i := atoi(f[1])
 		s.inst[i], s.cm[i] = nil, nil
 		return "ok"
+	case "dupname":
+		// an instantiation under the name of instance j: refused with the ordinary error while j is open (the new
+		// instance is closed again without ever having been registered); when the name is free it succeeds and is
+		// closed at once.  Either way nothing may change for anybody else.
+		if s.rt == nil {
+			return "ok"
+		}
+		m, err := s.rt.InstantiateWithConfig(ctx, emptyModule, wazero.NewModuleConfig().WithName(modName(atoi(f[1]))))
+		if err == nil {
+			m.Close(ctx)
+		}
+		return "ok"
 	case "droprt":
 		s.rt, s.cache = nil, nil
 		return "ok"
@@ -252,6 +274,8 @@ func (s *side) apply(op string, twin bool) (out string) {
 	}
 	panic("bad op " + op)
 }
+
+var emptyModule = []byte{0, 'a', 's', 'm', 1, 0, 0, 0}
 
 var sprayKeep [][]byte
 
